@@ -64,6 +64,8 @@ def forms_for(spec, tier):
         f += ["field", "dfield", "from", "param", "kwparam", "ret", "args", "kwargs"]
     else:
         f += ["field", "param"] if k in ("t", "g", "gc") else ["ret"] if k == "r" else []
+        if k == "t":
+            f += ["args", "kwargs"]
     return f
 
 
